@@ -11,6 +11,8 @@
 name: find_value_long
 define: U_FVL
 src: options.c
+native: options
+native_includes: options.c
 enforce: find_value_long
 backend: sat
 timeout: 120
@@ -19,6 +21,8 @@ timeout: 120
 name: find_value_short
 define: U_FVS
 src: options.c
+native: options
+native_includes: options.c
 enforce: find_value_short
 backend: sat
 timeout: 120
@@ -27,6 +31,8 @@ timeout: 120
 name: is_boolean_value
 define: U_ISBOOL
 src: options.c
+native: options
+native_includes: options.c
 enforce: is_boolean_value
 backend: sat
 timeout: 120
@@ -35,6 +41,8 @@ timeout: 120
 name: is_valid_option
 define: U_ISVALID
 src: options.c
+native: options
+native_includes: options.c
 enforce: is_valid_option
 replace: find_long_option, find_short_option
 backend: sat
@@ -44,6 +52,8 @@ timeout: 120
 name: is_valid_option.dash
 define: U_ISVALID, U_DASH
 src: options.c
+native: options
+native_includes: options.c
 enforce: is_valid_option
 replace: find_long_option, find_short_option
 backend: sat
